@@ -28,7 +28,7 @@ func init() {
 			return 1800
 		},
 		Batch: func(t string) int { return 30 },
-		Floors: []string{"comparisons", "path_verbatim_copy", "path_column_reencode", "path_row", "source_file", "source_buffer", "source_range_view", "source_multi", "source_merged", "source_dedup", "source_foreign_reversed", "source_converted", "source_merged_wrapped", "wrapped_dedup_input", "wrapped_foreign_input", "pending_rows_before_write_rowgroup",
+		Floors: []string{"comparisons", "path_verbatim_copy", "path_column_reencode", "path_row", "source_file", "source_buffer", "source_range_view", "source_multi", "source_merged", "source_dedup", "source_foreign_reversed", "source_converted", "source_merged_wrapped", "source_converted_values", "source_merged_converted_unsorted", "source_merged_converted_ranges", "value_conversions_checked", "wrapped_dedup_input", "wrapped_foreign_input", "pending_rows_before_write_rowgroup",
 			"dst_same_config", "dst_other_codec", "dst_other_version", "dst_other_encoding", "dst_small_pages", "dst_maxrows", "dst_bloom", "dst_page_statistics", "dst_index_size_limit", "settings_checked"},
 		Rule: "case = (source row group among: file row group, buffer, row-range view, MultiRowGroup, merged (overlapping or not), dedup wrapper, converted, and a foreign RowGroup implementation whose Rows() reverses the rows; source writer config from the option matrix; " +
 			"destination config equal to the source or with one setting changed: codec, page version, default encoding, page size, MaxRowsPerRowGroup, bloom filters, DataPageStatistics, ColumnIndexSizeLimit). File A = dst.WriteRowGroup(src); the rows of A (library reader and independent decoder) must equal src.Rows() as read before, " +
@@ -76,6 +76,10 @@ func (s *sliceRows) Schema() *parquet.Schema { return s.schema }
 
 func runC11(c *Ctx) {
 	r := c.R
+	if c.Case%10 == 9 {
+		c11Converted(c, r, c11ConvertedKinds[(c.Case/10)%len(c11ConvertedKinds)])
+		return
+	}
 	te := typeByName(gen.Pick(r, []string{"c10row", "strings", "lists", "deep", "dictall", "optscalar", "c07row", "repdict", "flat"}))
 	schema := te.ops.Schema()
 	n := gen.Pick(r, []int{30, 200, 600})
